@@ -338,6 +338,10 @@ func c15Run(run *ev.Run, srv *svc.Server, c c15Case) {
 		connect.VerifSetYield(nil)
 	}
 	run.Count("cases", 1)
+	if cr.Slow {
+		call.ReleaseNow()
+		return
+	}
 	run.Eval(fmt.Sprintf("h2=%v|%s|%s|%s|%s|deadline=%v", c.http2, c.proto, c.kind, c.handler, c.name, c.deadline))
 	detail := map[string]any{"case": key, "program": c.ops, "ops": describeOps(cr)}
 	defer call.ReleaseNow()
